@@ -45,7 +45,7 @@ def merge_property(families_fn, assumptions):
         cov["states"] += suite["states"]
         # beyond the exhaustive bound: seeded random transitions (up to 12 stories, 20 ids, lists up to 6), same TLC judge
         # "... and the same from every state reached by a prior merge history": behaviours of MosLife on live objects
-        life = pipeline.run_life_check(report, lite_plans(tier), seed, tier)
+        life = pipeline.run_life_check(report, lite_plans(tier, report.prop), seed, tier)
         cov["histories"] = {k: v for k, v in life.items() if k != "samples"}
         cov["traces_validated_against_impl"] += life["traces_validated_against_impl"]
         cov["states"] += life["states"]
@@ -83,20 +83,32 @@ A_COMMON = [
 ]
 
 def life_plans(tier):
+    """histories for the properties that are about histories (C07, C13-C17, C20)"""
     if tier == "quick":
-        return [dict(name="alpha2", mode="alphabet", objs=[1], depth=2),
-                dict(name="alpha3", mode="alphabet", objs=[1], depth=3, cap=2500),
+        return [dict(name="all2", mode="alphabet", theme="all", objs=[1], depth=2),
+                dict(name="carry3", mode="alphabet", theme="carry", objs=[1], depth=3),
+                dict(name="all3", mode="alphabet", theme="all", objs=[1], depth=3, cap=1500),
                 dict(name="random", mode="random", objs=[1, 2], depth=8, num=40, cap=400)]
-    return [dict(name="alpha3", mode="alphabet", objs=[1], depth=3),
-            dict(name="alpha4", mode="alphabet", objs=[1], depth=4, cap=20000),
+    return [dict(name="all3", mode="alphabet", theme="all", objs=[1], depth=3),
+            dict(name="carry4", mode="alphabet", theme="carry", objs=[1], depth=4),
+            dict(name="story4", mode="alphabet", theme="story", objs=[1], depth=4),
+            dict(name="item4", mode="alphabet", theme="item", objs=[1], depth=4),
+            dict(name="all4", mode="alphabet", theme="all", objs=[1], depth=4, cap=20000),
             dict(name="random", mode="random", objs=[1, 2], depth=12, num=400, cap=5000)]
 
 
-def lite_plans(tier):
-    if tier == "quick":
-        return [dict(name="alpha2", mode="alphabet", objs=[1], depth=2),
-                dict(name="random", mode="random", objs=[1, 2], depth=8, num=25, cap=200)]
-    return life_plans(tier)
+def lite_plans(tier, prop):
+    """histories for the single-step properties ("... and the same from every state reached by a prior merge history"):
+    every history of length 3 over the alphabet that matters for the property, all pairs of the full alphabet, and a few
+    simulated behaviours"""
+    if tier != "quick":
+        return life_plans(tier)
+    themed = {"C01": "story", "C02": "item", "C04": "carry"}.get(prop)
+    plans = [dict(name="all2", mode="alphabet", theme="all", objs=[1], depth=2)]
+    if themed:
+        plans.append(dict(name=themed + "3", mode="alphabet", theme=themed, objs=[1], depth=3))
+    plans.append(dict(name="random", mode="random", objs=[1, 2], depth=8, num=25, cap=200))
+    return plans
 
 
 def life_property(assumptions):
@@ -109,8 +121,9 @@ def life_property(assumptions):
 
 
 A_LIFE = [
-    "histories: every sequence of length 2 (quick) / 3 (thorough) over an 18-message state-dependent alphabet (exhaustive), a "
-    "seeded sample of 1500 / 20000 of the sequences one step longer, plus "
+    "histories: every sequence of length 2 (quick) / 3 (thorough) over a ~30-message state-dependent alphabet, every sequence of "
+    "length 3 / 4 over the themed sub-alphabets (story, item, carry: ~10 messages each; carry includes re-merging the first "
+    "message object), a seeded sample of 1500 / 20000 of the longer sequences over the full alphabet, plus "
     "tlc -simulate behaviours drawing any message of any class, with reload / re-merge steps, on two live objects",
     "judged step by step by TLC with resynchronisation on the implementation's post-state",
 ]
